@@ -67,6 +67,7 @@ type FnRun struct {
 	monitor       *Monitor
 	actionVars    map[string]EV
 	monVars       map[string]EV
+	inlinedBlocks int
 	frameAllowed  map[string]*frameAllow
 	frameAll      bool
 	globalsChecked map[string]bool
